@@ -218,6 +218,22 @@ claim("C15", "exploration",
       "DESIGN.md 4 C15")
 
 
+claim("C09", "exploration",
+      "A legal generated design (which must elaborate under every ordering: the converse direction) receives one "
+      "injected structural defect drawn from 14 kinds: second driver (block+block on the same signal / an overlapping "
+      "slice / a struct field and its parent, block+net, net+net via an extra connect), removed driver of a net, extra "
+      "connect closing a loop, read of a child's wire, write of an own InPort / a child's OutPort / a child's Wire, "
+      "wrong assignment operator in update / update_ff, <<= to a slice. For each of 4 orderings (statement "
+      "permutation, swapped connect sides, object-hash stream) elaborate() must raise an error whose class belongs to "
+      "the defect kinds present in the mutated spec; accepting the design or raising an unrelated class is a "
+      "violation. Probes re-check legal shapes that pymtl3 rejected (known finding F10, fixed F21).",
+      "The accepted error classes per injected defect are derived from the port-direction table and error texts "
+      "transcribed in DESIGN.md Appendix B; where an injection necessarily creates two defect kinds (e.g. writing a "
+      "child's OutPort that the child also drives) both classes are accepted. Don't-care shapes are never generated.",
+      "seeded defect injection + seeded order search over elaboration, error-class oracle from an independent analysis",
+      "DESIGN.md 4 C09")
+
+
 def main():
   props = [json.loads(l)["id"] for l in open(os.path.join(VERIF, "properties.jsonl"))]
   checks = []
